@@ -46,7 +46,7 @@ COMPONENTS = {
     "stub": ["builtins.open as seen by hiten.utils.io.* during injected save faults (ENOSPC / EIO after k bytes, short write)"],
 }
 TIERS = {
-    "quick": {"budget_s": 110.0, "max_runs": 200000, "chunk": 1, "run_timeout": 900.0, "min_budget": 120.0, "selfcheck_runs": 3, "enum_len": 2},
+    "quick": {"budget_s": 90.0, "max_runs": 200000, "chunk": 1, "run_timeout": 900.0, "min_budget": 120.0, "selfcheck_runs": 3, "enum_len": 2},
     "thorough": {"budget_s": 1500.0, "max_runs": 10_000_000, "chunk": 2, "run_timeout": 900.0, "min_budget": 300.0, "selfcheck_runs": 6, "enum_len": 3},
 }
 
